@@ -1395,7 +1395,7 @@ Lemma judge_prog_sound p o tag :
 Proof.
   unfold judge_prog. destruct o as [|feat|ob|]; try discriminate.
   - destruct (existsb is_panic (fmt_prog true p)); discriminate.
-  - destruct (mem "Paragraph" (o_feat ob)); [discriminate|].
+  - destruct (read_as_prose (o_feat ob)); [discriminate|].
     destruct (String.eqb (o_text ob) (render (fmt_prog false p))) eqn:Hc.
     + destruct (all_good ob) eqn:Hg.
       * intros H. injection H as <-. apply all_good_spec in Hg. split; [exists ob; tauto|].
